@@ -138,6 +138,12 @@ func (b c08BareFile) Stat() (hackpadfs.FileInfo, error) { return b.f.Stat() }
 func (b c08BareFile) Read(p []byte) (int, error)        { return b.f.Read(p) }
 func (b c08BareFile) Close() error                      { return b.f.Close() }
 
+type c08SeekFile struct{ c08BareFile }
+
+func (s c08SeekFile) Seek(offset int64, whence int) (int64, error) {
+	return hackpadfs.SeekFile(s.f, offset, whence)
+}
+
 var c08FileHelpers = []string{"ChmodFile", "ChownFile", "ChtimesFile", "ReadAtFile", "WriteFile", "WriteAtFile", "ReadDirFile", "SeekFile", "SyncFile", "TruncateFile"}
 
 func VerifC08FileHelpers() {
@@ -147,14 +153,21 @@ func VerifC08FileHelpers() {
 	real, err := m.OpenFile("f", hackpadfs.FlagReadWrite, 0)
 	verifAssert(err == nil, "OpenFile")
 	var f hackpadfs.File = real
-	bare := verifChoice("bare", 2) == 1
-	if bare {
+	h0 := verifChoice("helper", len(c08FileHelpers))
+	wrap := verifChoice("bare", 3)
+	bare := wrap >= 1
+	if wrap == 2 {
+		// a file that offers Seek (only): a helper must not emulate a missing method through another one
+		f = c08SeekFile{c08BareFile{real}}
+		verifTag("file", "bare+Seek")
+		verifAssume(h0 != 7) // SeekFile itself is offered
+	} else if bare {
 		f = c08BareFile{real}
 		verifTag("file", "bare")
 	} else {
 		verifTag("file", "full")
 	}
-	h := verifChoice("helper", len(c08FileHelpers))
+	h := h0
 	verifTag("helper", c08FileHelpers[h])
 	switch h {
 	case 0:
